@@ -4,6 +4,7 @@ use std::fmt::Display;
 use std::fmt::Formatter;
 use std::io::Cursor;
 use std::sync::Arc;
+use std::sync::Mutex;
 use std::sync::OnceLock;
 use std::time::Duration;
 
@@ -102,13 +103,13 @@ impl<const N: usize> AEADCipherCodec<N> {
                 if eih_len > 0 {
                     text = &mut text[eih_len..];
                 }
-                let cipher = unsafe { get_cipher(self.kind, context.key, session.client_session_id) };
+                let cipher = get_cipher(self.kind, context.key, session.client_session_id);
                 cipher.encrypt_in_place_detached(&nonce, &[], text).map_err(|e| anyhow!(e))?;
                 Ok(())
             }
             CipherKind::Aead2022Blake3ChaCha8Poly1305 | CipherKind::Aead2022Blake3ChaCha20Poly1305 => {
                 let (nonce, plaintext) = dst.split_at_mut(nonce_size);
-                let cipher = unsafe { get_cipher(self.kind, context.key, session.client_session_id) };
+                let cipher = get_cipher(self.kind, context.key, session.client_session_id);
                 cipher.encrypt_in_place_detached(nonce, &[], plaintext).map_err(|e| anyhow!(e))?;
                 Ok(())
             }
@@ -158,13 +159,13 @@ impl<const N: usize> AEADCipherCodec<N> {
                     context.key
                 };
                 udp::aes_encrypt_in_place(self.kind, key, header)?;
-                let cipher = unsafe { get_cipher(self.kind, key, session.server_session_id) };
+                let cipher = get_cipher(self.kind, key, session.server_session_id);
                 cipher.encrypt_in_place_detached(&nonce, &[], text).map_err(|e| anyhow!(e))?;
                 Ok(())
             }
             CipherKind::Aead2022Blake3ChaCha8Poly1305 | CipherKind::Aead2022Blake3ChaCha20Poly1305 => {
                 let (nonce, plaintext) = dst.split_at_mut(nonce_length);
-                let cipher = unsafe { get_cipher(self.kind, context.key, session.server_session_id) };
+                let cipher = get_cipher(self.kind, context.key, session.server_session_id);
                 cipher.encrypt_in_place_detached(nonce, &[], plaintext).map_err(|e| anyhow!(e))?;
                 Ok(())
             }
@@ -210,7 +211,7 @@ impl<const N: usize> AEADCipherCodec<N> {
                     let packet_id = cursor.get_u64();
                     let session_id_packet_id = cursor.into_inner();
                     let nonce = &session_id_packet_id[4..16];
-                    let cipher = unsafe { get_cipher(kind, context.key, server_session_id) };
+                    let cipher = get_cipher(kind, context.key, server_session_id);
                     cipher.decrypt_in_place_detached(nonce, &[], text).map_err(|e| anyhow!(e))?;
                     let text = &text[..text.len() - tag_size];
                     Ok((server_session_id, packet_id, text))
@@ -222,7 +223,7 @@ impl<const N: usize> AEADCipherCodec<N> {
                         let slice: &[u64] = unsafe { slice::from_raw_parts(slice.as_ptr() as *const _, 1) };
                         u64::from_be(slice[0])
                     };
-                    let cipher = unsafe { get_cipher(kind, context.key, session_id) };
+                    let cipher = get_cipher(kind, context.key, session_id);
                     cipher.decrypt_in_place_detached(nonce, &[], text).map_err(|e| anyhow!(e))?;
                     let mut cursor = Cursor::new(text);
                     let server_session_id = cursor.get_u64();
@@ -298,7 +299,7 @@ impl<const N: usize> AEADCipherCodec<N> {
                     }
                 }
                 let key = if let Some(ref user) = user { &user.key } else { context.key };
-                let cipher = unsafe { get_cipher(self.kind, key, session_id) };
+                let cipher = get_cipher(self.kind, key, session_id);
                 let mut packet = src.split_off(0);
                 cipher.decrypt_in_place(&nonce, &[], &mut packet).map_err(|e| anyhow!(e))?;
                 (session_id, packet_id, packet)
@@ -310,7 +311,7 @@ impl<const N: usize> AEADCipherCodec<N> {
                     let slice: &[u64] = unsafe { slice::from_raw_parts(slice.as_ptr() as *const _, 1) };
                     u64::from_be(slice[0])
                 };
-                let cipher = unsafe { get_cipher(self.kind, context.key, session_id) };
+                let cipher = get_cipher(self.kind, context.key, session_id);
                 cipher.decrypt_in_place_detached(nonce, &[], text).map_err(|e| anyhow!(e))?;
                 let mut cursor = Cursor::new(text);
                 let server_session_id = cursor.get_u64();
@@ -456,16 +457,21 @@ impl Ord for CipherKey {
     }
 }
 
-static CACHE: OnceLock<LruCache<CipherKey, CipherMethod>> = OnceLock::new();
+static CACHE: OnceLock<Mutex<LruCache<CipherKey, Arc<CipherMethod>>>> = OnceLock::new();
 
-unsafe fn get_cipher(kind: CipherKind, key: &[u8], session_id: u64) -> &CipherMethod {
-    let cache = CACHE.get_or_init(|| LruCache::with_expiry_duration_and_capacity(Duration::from_secs(30), 102400));
-    let cache = unsafe { std::ptr::from_ref(cache).cast_mut().as_mut().expect("empty cipher cache") };
+/// The per-session ciphers are shared by every udp task of the process: the cache is locked while it is
+/// looked up, and a cipher is handed out behind an `Arc` so that no reference into the cache outlives the lock
+fn get_cipher(kind: CipherKind, key: &[u8], session_id: u64) -> Arc<CipherMethod> {
+    let cache = CACHE.get_or_init(|| Mutex::new(LruCache::with_expiry_duration_and_capacity(Duration::from_secs(30), 102400)));
+    let mut cache = cache.lock().unwrap_or_else(|e| e.into_inner());
     let key_ptr = key.as_ptr() as usize;
-    cache.entry(CipherKey { kind, key: key_ptr, session_id }).or_insert_with(|| {
-        debug!("[udp] new cache cipher {}|{}|{}", kind, key_ptr, session_id);
-        udp::new_cipher(kind, key, session_id)
-    })
+    cache
+        .entry(CipherKey { kind, key: key_ptr, session_id })
+        .or_insert_with(|| {
+            debug!("[udp] new cache cipher {}|{}|{}", kind, key_ptr, session_id);
+            Arc::new(udp::new_cipher(kind, key, session_id))
+        })
+        .clone()
 }
 
 #[cfg(test)]
